@@ -32,7 +32,14 @@ def main():
     out = {"property": prop, "name": name, "steps": {}}
     env = dict(os.environ, PYTHONPATH=wt, PYTHONDONTWRITEBYTECODE="1")
     sh("git checkout -- .", cwd=wt)
-    needs_build = any(l.startswith("+++ ") and l.strip().endswith((".c", ".h")) for l in open(diff))
+    cfiles = [l.split("b/", 1)[1].strip() for l in open(diff) if l.startswith("+++ b/") and l.strip().endswith((".c", ".h"))]
+    needs_build = bool(cfiles)
+    import glob
+    build_cmds = []
+    for cf in cfiles:
+        for b in glob.glob(os.path.join(wt, os.path.dirname(cf), "*_build.py")):
+            build_cmds.append("/venv/bin/python " + os.path.relpath(b, wt))
+    build_cmd = " && ".join(sorted(set(build_cmds))) or "true"
     rc0, o0 = sh(f"/venv/bin/python {demo}", cwd=wt, env=env, timeout=900)
     out["steps"]["demo_unchanged"] = {"exit": rc0, "tail": o0[-400:]}
     rc, o = sh(f"git apply --check {diff} && git apply {diff}", cwd=wt)
@@ -41,7 +48,7 @@ def main():
         print(json.dumps(out, indent=1))
         return 2
     if needs_build:
-        rcb, ob = sh("/venv/bin/python setup.py build_ext --inplace", cwd=wt, timeout=900)
+        rcb, ob = sh(build_cmd, cwd=wt, timeout=900)
         out["steps"]["rebuild"] = {"exit": rcb, "tail": ob[-300:]}
     rc1, o1 = sh(f"/venv/bin/python {demo}", cwd=wt, env=env, timeout=900)
     out["steps"]["demo_with_change"] = {"exit": rc1, "tail": o1[-600:]}
@@ -51,7 +58,8 @@ def main():
     sh("git checkout -- .", cwd=wt)
     sh("git clean -fdq -e '*.so'", cwd=wt)
     if needs_build:
-        sh("/venv/bin/python setup.py build_ext --inplace", cwd=wt, timeout=900)
+        sh(build_cmd, cwd=wt, timeout=900)
+        sh("git clean -fdq -e '*.so'", cwd=wt)
     # step 4: checks against /repo with the patch
     rc, o = sh("git status --porcelain", cwd="/repo")
     if o.strip():
@@ -78,6 +86,12 @@ def main():
     if valid:
         d = os.path.join(VERIF, "seeded", name)
         os.makedirs(d, exist_ok=True)
+        prev_tests = None
+        if skip_tests and os.path.exists(os.path.join(d, "meta.json")):
+            try:
+                prev_tests = json.load(open(os.path.join(d, "meta.json")))["what_was_run"]["test_suite_with_change"]
+            except Exception:
+                prev_tests = None
         shutil.copy(diff, os.path.join(d, "patch.diff"))
         shutil.copy(demo, os.path.join(d, "demo.py"))
         notes = os.path.join(seed_dir, "notes.md")
@@ -89,7 +103,7 @@ def main():
             "what_was_run": {
                 "demo_on_unchanged_worktree_exit": rc0,
                 "demo_with_change_exit": rc1,
-                "test_suite_with_change": out["steps"].get("tests_with_change", {}).get("tail", "skipped"),
+                "test_suite_with_change": out["steps"].get("tests_with_change", {}).get("tail", prev_tests or "not re-run in this verification"),
                 "checks_with_change_applied_to_repo": out["checks_with_change"],
             },
             "detected_by_own_property_check": out["detected_by_own_property"],
